@@ -219,7 +219,9 @@ def limit_memory(gib=4):
         import resource
 
         lim = int(float(os.environ.get("VERIF_MEM_GIB", gib)) * (1 << 30))
-        resource.setrlimit(resource.RLIMIT_AS, (lim, lim))
+        # the hard limit leaves 2 GiB of slack that only the time guard's signal handler uses: when the code under test
+        # has exhausted the soft limit, raising the timeout exception itself needs memory
+        resource.setrlimit(resource.RLIMIT_AS, (lim, lim + (2 << 30)))
     except Exception:
         pass
 
